@@ -248,9 +248,17 @@ static std::mutex g_owner_mu;
 static std::unordered_map<const void *, int> g_block_owner;
 template <class T> struct TrackAlloc {
   using value_type = T;
+#ifdef H_NOPROP
+  // the non-propagating policy: assignment keeps the destination's allocator, so a move assignment between unequal
+  // allocators relocates element by element (swap of unequal non-propagating allocators is undefined: not generated)
+  using propagate_on_container_copy_assignment = std::false_type;
+  using propagate_on_container_move_assignment = std::false_type;
+  using propagate_on_container_swap = std::false_type;
+#else
   using propagate_on_container_copy_assignment = std::true_type;
   using propagate_on_container_move_assignment = std::true_type;
   using propagate_on_container_swap = std::true_type;
+#endif
   int id;
   TrackAlloc() : id(0) {}
   explicit TrackAlloc(int i) : id(i) {}
@@ -633,7 +641,16 @@ static std::string exec_op(int a, const std::vector<std::string> &tk) {
       g_it_valid[ri] = true;
       r = " " + pos_str(g_it[ri]);
     } else if (o == "l.at") {
-      r = " " + std::to_string(val_get(g_lt[a]->at(LK(U(tk[2])))));
+      // alternately through the const overloads (at / find / equal_range of a const locked_table), with the same
+      // heterogeneous key type: it is not convertible to key_type, so a lookup that constructed a key would not compile
+      if (U(tk[2]) % 2 == 0) r = " " + std::to_string(val_get(g_lt[a]->at(LK(U(tk[2])))));
+      else {
+        const LT &clt = *g_lt[a];
+        auto cit = clt.find(LK(U(tk[2])));
+        auto cpr = clt.equal_range(LK(U(tk[2])));
+        if ((cit == clt.end()) != (cpr.first == cpr.second)) g_errors.push_back("const find and const equal_range disagree");
+        r = " " + std::to_string(val_get(clt.at(LK(U(tk[2])))));
+      }
     } else if (o == "l.count") {
       const LT &clt = *g_lt[a];
       r = " " + std::to_string(clt.count(LK(U(tk[2]))));
